@@ -183,12 +183,21 @@ Section Impl.
                       else (IP_lit (Some (NumI F 0%Z)), e1) in
       finish_ e2 (E_MPLEX F (tok toks 2) (tok toks 3) (to_sc c) (to_sc p)).
 
-  (* _GD_WindOp: switch on op[0], then the following characters *)
+  (* _GD_WindOp: switch (op[0]), then op[1], op[2] (, op[3]) and the terminator *)
+  Definition one (r : list N) (c : N) : bool := match r with [x] => x =? c | _ => false end.
+  Definition two (r : list N) (c d : N) : bool := match r with [x; y] => (x =? c) && (y =? d) | _ => false end.
   Definition wind_op (t : list N) : nat :=
     match t with
-    | [69; 81] => 1 | [76; 84] => 5 | [76; 69] => 4 | [71; 84] => 3 | [71; 69] => 2
-    | [78; 69] => 6 | [83; 69; 84] => 7 | [67; 76; 82] => 8 | _ => 0
-    end%nat.
+    | [] => 0%nat
+    | c0 :: r =>
+        if c0 =? 69 then (if one r 81 then 1%nat else 0%nat)                       (* EQ *)
+        else if c0 =? 76 then (if one r 84 then 5%nat else if one r 69 then 4%nat else 0%nat)  (* LT LE *)
+        else if c0 =? 71 then (if one r 84 then 3%nat else if one r 69 then 2%nat else 0%nat)  (* GT GE *)
+        else if c0 =? 78 then (if one r 69 then 6%nat else 0%nat)                  (* NE *)
+        else if c0 =? 83 then (if two r 69 84 then 7%nat else 0%nat)               (* SET *)
+        else if c0 =? 67 then (if two r 76 82 then 8%nat else 0%nat)               (* CLR *)
+        else 0%nat
+    end.
 
   Definition p_window (toks : list (list N)) : lresF :=
     if (List.length toks <? 6)%nat then LErr F 3
@@ -196,7 +205,7 @@ Section Impl.
       let op := wind_op (tok toks 4) in
       if (op =? 0)%nat then LErr F 20
       else
-        let w := match op with 1 | 6 => WSigned | 7 | 8 => WUnsigned | _ => WFloat end%nat in
+        let w := match op with 1%nat | 6%nat => WSigned | 7%nat | 8%nat => WUnsigned | _ => WFloat end in
         let '(th, e) := iscal None w (tok toks 5) in
         finish_ e (E_WINDOW F (tok toks 2) (tok toks 3) op (to_sc th)).
 
